@@ -50,7 +50,7 @@ REQUIRED = ["tree_resamplings", "branches_checked", "sample_points_checked", "ze
             "non_soma_roots", "instance_reused", "branch_isometric_checked", "integer_coordinate_branches",
             "branch_linear_checked", "branch_smoother_checked", "tree_smoother_checked", "assembler_identity_checked",
             "tap_assembler", "tap_resample", "rejected_calls_before_resampling",
-            "branch_trees_resampled"]
+            "branch_trees_resampled", "size_sweep_cases"]
 FLOOR = {"quick": 850, "thorough": 17000}
 SHARDS = {"quick": 8, "thorough": 16}
 TOL = 1e-4
@@ -554,6 +554,14 @@ def run(ctx):
             else:
                 case = {"kind": "assembler", "tree": rc}
                 ctx.case(case, nontrivial=rc["n"] >= 3, klass="assembler")
+            execute(ctx, case)
+        for j, rc in enumerate(G.sweep_recipes(ctx, max_small=4097, large=1, numbering="sorted",
+                                               shapes=["bamboo", "neuron", "caterpillar"])):
+            # node counts on / next to powers of two, and one big branched tree
+            case = {"kind": "tree", "tree": rc, "spacing_mode": "rel",
+                    "factor": [3.0, 0.7, 10.0][j % 3]}
+            ctx.case(case, klass="size-sweep")
+            ctx.count("size_sweep_cases")
             execute(ctx, case)
         for j, rc in enumerate(G.real_recipes(rng, 1000 if ctx.quick else None)):
             if j % ctx.nshards == ctx.shard:
